@@ -470,10 +470,10 @@ func Go(f func()) {
 	}
 	parent := s.cur
 	child := s.newThread(fmt.Sprintf("go@%s", callerSite(2)), f, true)
-	// spawn edge
-	parent.vc[parent.id]++
+	// spawn edge: the child knows what the parent did up to here; what the parent does afterwards is concurrent
 	child.vc = parent.vc
 	child.vc[child.id] = 1
+	parent.vc[parent.id]++
 	s.trace("spawn t%d", child.id)
 	parent.pend = pending{kind: opSpawned}
 	s.point(parent)
